@@ -62,7 +62,8 @@ def run(tier, seed):
     res = Result(PID, tier, seed)
     res.rule = ("per kernel: boundary-directed lane values satisfying the documented operand requirement (canonical second "
                 "operand, multiplier < 2^8); each vector = 8 independent lane cases; non-trivial = some lane in [p, 2^64)")
-    res.assumptions = ["intrinsic semantics of Isa/Avx512.lean (executed on this machine's AVX512F unit in this run)",
+    res.assumptions = ["register operands are values in the model; the in-place call patterns f(x, x, b) / f(x, a, x) (output register object = an input register object) are exercised on the implementation side (variants __ra<o>_<k>), not proved",
+                       "intrinsic semantics of Isa/Avx512.lean (executed on this machine's AVX512F unit in this run)",
                        "build configuration -D__AVX512__ -mavx512f (never selected by the shipped test build)"]
     st = run_gen()
     standard_proof_phase(res, MODULE, "C11_", st, ["Scalar", "Avx512"], thorough=(tier == "thorough"))
@@ -81,5 +82,5 @@ def run(tier, seed):
             res.broken.append(("harness build (%s)" % fl, err))
             continue
         if drv:
-            corr_campaign(res, h, drv, make_cases(seed + len(fl), n, names), fl)
+            corr_campaign(res, h, drv, with_reg_alias(make_cases(seed + len(fl), n, names), st), fl)
     return res.finish()
